@@ -30,3 +30,28 @@ unsigned long __CPROVER_uninterpreted_pos(unsigned long, unsigned long, unsigned
  * base_ndarray(idx) = data[offset(idx)]; lemma L1 of lemmas/MixedRadix.lean: offset(indices(i)) = i) */
 #define C10_POS_ENUM(p)   (!((p) < GN) || POSF_AT(p) == (p))
 #endif
+
+/* ---- bounded unit: element of the lazy view transpose(src) at multi-index idx == NumPy's src.T[idx] = src[reversed idx] */
+static inline int c10_small_shape(sv4_t s)
+{ if (SV_LEN(s) > 3UL) return 0; int ok = 1; for (unsigned long k = 0; k < 3; k++) if (k < SV_LEN(s)) ok = ok && SV_AT(s, k) >= 1UL && SV_AT(s, k) <= 6UL; return ok; }
+static inline unsigned long c10_numel3(sv4_t s) { unsigned long p = 1; for (unsigned long k = 0; k < 3; k++) if (k < SV_LEN(s)) p = p * SV_AT(s, k); return p; }
+static inline int pre_verif_transpose_at(fb6_t src_data, sv4_t src_shape, sv4_t idx)
+{
+  if (!(c10_small_shape(src_shape) && SV_LEN(idx) == SV_LEN(src_shape) && SV_LEN(src_data) <= 6UL)) return 0;
+  int ok = 1;   /* idx is a valid index of the TRANSPOSED shape: idx[k] < src_shape[n-1-k] */
+  for (unsigned long k = 0; k < 3; k++) if (k < SV_LEN(idx)) ok = ok && SV_AT(idx, k) < SV_AT(src_shape, SV_LEN(idx) - 1UL - k);
+  return ok;
+}
+static inline int post_verif_transpose_at(fb6_t src_data, sv4_t src_shape, sv4_t idx, vat_res_t ret)
+{
+  if (ret.ok != (c10_numel3(src_shape) <= 6UL)) return 0;
+  if (!ret.ok) return 1;
+  unsigned long n = SV_LEN(src_shape), q = 0UL;
+  for (unsigned long j = 0; j < 3; j++)
+    if (j < n) {
+      unsigned long stride = 1UL;
+      for (unsigned long t = 0; t < 3; t++) if (t > j && t < n) stride = stride * SV_AT(src_shape, t);
+      q = q + SV_AT(idx, n - 1UL - j) * stride;      /* source coordinate j is destination coordinate n-1-j */
+    }
+  return q < 6UL && FEQ(ret.value, SV_AT(src_data, q));
+}
